@@ -1,6 +1,6 @@
 """C17 - PETS model: ensemble consistency, bootstraps and plan evaluation (E3, exploration).
 
-Five sections, every one a complete Cartesian product of small finite alphabets judged against float64
+Sections (work-item kinds), every one a complete Cartesian product of small finite alphabets judged against float64
 numpy references that share no code with rl-blox:
 
   ens   GaussianMLPEnsemble: __call__ / aggregate / base_predict / base_distribution on the same inputs
